@@ -8,6 +8,7 @@
   Behind Props/C14Sender.lean.
 -/
 import Saltpack.Proofs.SenderStreamInst
+import Saltpack.Proofs.StreamLemmas
 
 namespace Saltpack.Proofs.SenderP
 open Saltpack Saltpack.Sender
@@ -54,33 +55,103 @@ theorem farm_spaceOut_faults : ∀ (fuel : Nat) (s : FArm),
     · simp only [hgt, if_false] at hres
       subst hres; simp
 
+/-! ### the armor stream's `Write` and `Close` in normal form -/
+
+/-- what `Write` does once the call is not refused and the encoder has run -/
+def farmAfter (s1 : FArm) : Bool × FArm :=
+  match FArm.spaceOut (s1.buf.length + 1) s1 with
+  | (true, s2) => (true, s2)
+  | (false, s2) => (false, { s2 with failed := true })
+
+theorem farmAfter_faults (s1 : FArm) :
+    (farmAfter s1).2.w.faults = s1.w.faults + (if (farmAfter s1).1 then 0 else 1) := by
+  have h := farm_spaceOut_faults (s1.buf.length + 1) s1
+  unfold farmAfter
+  cases hsp : FArm.spaceOut (s1.buf.length + 1) s1 with
+  | mk ok s2 =>
+    rw [hsp] at h
+    cases ok <;> simpa using h
+
+theorem farm_write_eq (a : FArm) (b : Bytes) :
+    a.write b =
+      if a.failed then (false, a)
+      else if (a.enc.write b).2.1 then farmAfter (a.feed (a.enc.write b).2.2)
+      else (false, { a.feed (a.enc.write b).2.2 with failed := true }) := by
+  unfold FArm.write FArm.writeN farmAfter
+  by_cases hf : a.failed = true
+  · simp [hf]
+  · simp only [hf, Bool.false_eq_true, if_false]
+    rcases he : a.enc.write b with ⟨n, ok, e'⟩
+    cases ok with
+    | false => simp
+    | true =>
+      simp only [if_true]
+      cases hsp : FArm.spaceOut ((a.feed e').buf.length + 1) (a.feed e') with
+      | mk ok2 s2 => cases ok2 <;> rfl
+
 /-- the armor stream's `Write` returns an error iff an underlying write failed
-    during it — exactly one, the first -/
+    during it — exactly one, the first — or the call was refused (`s.err` set by
+    an earlier failure: no underlying write at all) or the BaseX encoder failed
+    (never: `farm_encOk_write`) -/
+theorem farm_write_faults (a : FArm) (b : Bytes) :
+    (a.write b).2.w.faults =
+      a.w.faults + (if (a.write b).1 || a.failed || !(a.enc.write b).2.1 then 0 else 1) := by
+  rw [farm_write_eq]
+  by_cases hf : a.failed = true
+  · simp [hf]
+  · by_cases he : (a.enc.write b).2.1 = true
+    · simp only [hf, he, Bool.false_eq_true, if_false, if_true, Bool.or_false, Bool.not_true]
+      exact farmAfter_faults _
+    · simp [hf, he, FArm.feed]
+
+/-- the armor stream is a fault-reporting writer (a refused call fails without
+    any write below it: `FltWriter.fail` is `≤`) -/
 theorem farm_flt : FltWriter FArm.write (fun a => a.w.faults) := by
   constructor
   · intro a p a' h
-    have := farm_spaceOut_faults ((a.feed (a.enc.write p).2.2).buf.length + 1) (a.feed (a.enc.write p).2.2)
-    unfold FArm.write at h
-    simp only at h
+    have := farm_write_faults a p
     rw [h] at this
-    simpa [FArm.feed] using this
+    simpa using this
   · intro a p a' h
-    have := farm_spaceOut_faults ((a.feed (a.enc.write p).2.2).buf.length + 1) (a.feed (a.enc.write p).2.2)
-    unfold FArm.write at h
-    simp only at h
+    have := farm_write_faults a p
     rw [h] at this
-    simpa [FArm.feed] using this
+    show a.w.faults ≤ a'.w.faults
+    rw [this]; omega
 
-/-- the armor stream's `Close` likewise -/
-theorem farm_close_faults (s : FArm) :
-    (FArm.close s).2.w.faults = s.w.faults + (if (FArm.close s).1 then 0 else 1) := by
-  have h0 := farm_spaceOut_faults ((s.feed s.enc.close.2).buf.length + 1) (s.feed s.enc.close.2)
-  have hf0 : (s.feed s.enc.close.2).w.faults = s.w.faults := rfl
-  rw [hf0] at h0
-  generalize hres : FArm.close s = r
-  unfold FArm.close at hres
-  simp only at hres
-  cases hsp : FArm.spaceOut ((s.feed s.enc.close.2).buf.length + 1) (s.feed s.enc.close.2) with
+/-- `Close` once it is not refused and the encoder has been closed -/
+def farmCloseAfter (s1 : FArm) : Bool × FArm :=
+  match FArm.spaceOut (s1.buf.length + 1) s1 with
+  | (false, s2) => (false, { s2 with failed := true })
+  | (true, s2) =>
+    match s2.w.write s2.buf with
+    | (false, w') => (false, { s2 with w := w', failed := true })
+    | (true, w') =>
+      let n := s2.nWords + 1
+      let pad : Bytes :=
+        if s2.buf.length = s2.par.bytesPerWord then
+          (if n % s2.par.wordsPerLine = 0 then [Armor.newline] else [Armor.space])
+        else []
+      match w'.write (pad ++ [Armor.period, Armor.space] ++ s2.ftr ++ [Armor.period, Armor.newline]) with
+      | (ok, w'') => (ok, { s2 with nWords := n, w := w'', failed := !ok })
+
+theorem farm_close_eq (a : FArm) :
+    a.close =
+      if a.failed then (false, a)
+      else if a.enc.close.1 then farmCloseAfter (a.feed a.enc.close.2)
+      else (false, { a.feed a.enc.close.2 with failed := true }) := by
+  unfold FArm.close farmCloseAfter
+  by_cases hf : a.failed = true
+  · simp [hf]
+  · simp only [hf, Bool.false_eq_true, if_false]
+    rcases he : a.enc.close with ⟨ok, e'⟩
+    cases ok <;> rfl
+
+theorem farmCloseAfter_faults (s : FArm) :
+    (farmCloseAfter s).2.w.faults = s.w.faults + (if (farmCloseAfter s).1 then 0 else 1) := by
+  have h0 := farm_spaceOut_faults (s.buf.length + 1) s
+  generalize hres : farmCloseAfter s = r
+  unfold farmCloseAfter at hres
+  cases hsp : FArm.spaceOut (s.buf.length + 1) s with
   | mk ok s2 =>
     rw [hsp] at h0
     simp only [hsp] at hres
@@ -100,6 +171,151 @@ theorem farm_close_faults (s : FArm) :
           subst hres
           simp only
           rw [wr_write_faults, h1, h0]; simp
+
+/-- the armor stream's `Close` likewise -/
+theorem farm_close_faults (a : FArm) :
+    a.close.2.w.faults = a.w.faults + (if a.close.1 || a.failed || !a.enc.close.1 then 0 else 1) := by
+  rw [farm_close_eq]
+  by_cases hf : a.failed = true
+  · simp [hf]
+  · by_cases he : a.enc.close.1 = true
+    · simp only [hf, he, Bool.false_eq_true, if_false, if_true, Bool.or_false, Bool.not_true]
+      exact farmCloseAfter_faults _
+    · simp [hf, he, FArm.feed]
+
+/-! ### the BaseX encoder inside the armor stream never fails (its writer is a `bytes.Buffer`) -/
+
+open Saltpack.Stream in
+theorem interior_sinkless : ∀ (fuel : Nat) (s : EncState) (p : Bytes) (n : Nat), s.sink = [] → s.failed = false →
+    (EncState.interior fuel s p n).1 = true ∧ (EncState.interior fuel s p n).2.1.sink = [] ∧
+    (EncState.interior fuel s p n).2.1.failed = false := by
+  intro fuel
+  induction fuel with
+  | zero => intro s p n hs hf; exact ⟨rfl, hs, hf⟩
+  | succ fuel ih =>
+    intro s p n hs hf
+    unfold EncState.interior
+    by_cases hge : p.length ≥ s.enc.blockLen
+    · simp only [if_pos hge]
+      rw [under_nofail s _ hs]
+      simp only [Bool.not_true, Bool.false_eq_true, if_false]
+      exact ih _ _ _ hs hf
+    · rw [if_neg hge]
+      exact ⟨rfl, hs, hf⟩
+
+open Saltpack.Stream in
+theorem encRest_sinkless (s : EncState) (p : Bytes) (n : Nat) (hs : s.sink = []) (hf : s.failed = false) :
+    (encRest s p n).2.1 = true ∧ (encRest s p n).2.2.sink = [] ∧ (encRest s p n).2.2.failed = false := by
+  obtain ⟨i1, i2, i3⟩ := interior_sinkless (p.length + 1) s p n hs hf
+  unfold encRest
+  simp only [i1, Bool.not_true, Bool.false_eq_true, if_false]
+  exact ⟨trivial, i2, i3⟩
+
+open Saltpack.Stream in
+/-- an encoder over a writer that never fails (`sink = []`) never fails -/
+theorem enc_write_sinkless (s : EncState) (p : Bytes) (hs : s.sink = []) (hf : s.failed = false) :
+    (s.write p).2.1 = true ∧ (s.write p).2.2.sink = [] ∧ (s.write p).2.2.failed = false := by
+  rw [write_eq]
+  simp only [hf, Bool.false_eq_true, if_false]
+  by_cases hb : (!s.buf.isEmpty) = true
+  · simp only [hb, if_true]
+    by_cases hl : (encFringe s p).length < s.enc.blockLen
+    · rw [if_pos hl]; exact ⟨rfl, hs, rfl⟩
+    · simp only [hl, if_false]
+      have hu : encFringeU s p = (true, { ({ s with buf := [] } : EncState) with
+          written := s.written ++ [Basex.encode s.enc (encFringe s p)] }) := by
+        unfold encFringeU
+        exact under_nofail _ _ hs
+      rw [hu]
+      simp only [Bool.not_true, Bool.false_eq_true, if_false]
+      exact encRest_sinkless _ _ _ hs hf
+  · simp only [hb, Bool.false_eq_true, if_false]
+    exact encRest_sinkless s p 0 hs hf
+
+open Saltpack.Stream in
+theorem enc_close_sinkless (s : EncState) (hs : s.sink = []) (hf : s.failed = false) :
+    s.close.1 = true ∧ s.close.2.sink = [] ∧ s.close.2.failed = false := by
+  unfold EncState.close
+  by_cases hb : s.buf.isEmpty = true
+  · simp [hb, hf, hs]
+  · rw [if_pos (by simp [hf, hb]), under_nofail _ _ hs]
+    exact ⟨rfl, hs, hf⟩
+
+/-- the encoder of the armor stream is healthy and its writer (the
+    `bytes.Buffer`) has no fault script -/
+def _root_.Saltpack.Sender.FArm.EncOk (a : FArm) : Prop := a.enc.sink = [] ∧ a.enc.failed = false
+
+theorem farm_spaceOut_frame : ∀ (fuel : Nat) (s : FArm),
+    (FArm.spaceOut fuel s).2.par = s.par ∧ (FArm.spaceOut fuel s).2.enc = s.enc ∧
+    (FArm.spaceOut fuel s).2.ftr = s.ftr ∧ (FArm.spaceOut fuel s).2.failed = s.failed := by
+  intro fuel
+  induction fuel with
+  | zero => intro s; exact ⟨rfl, rfl, rfl, rfl⟩
+  | succ fuel ih =>
+    intro s
+    unfold FArm.spaceOut
+    by_cases hgt : s.buf.length > s.par.bytesPerWord
+    · simp only [hgt, if_true]
+      cases hw1 : s.w.write (s.buf.take s.par.bytesPerWord) with
+      | mk ok1 w1 =>
+        cases ok1 with
+        | false => exact ⟨rfl, rfl, rfl, rfl⟩
+        | true =>
+          simp only
+          cases hw2 : w1.write [if (s.nWords + 1) % s.par.wordsPerLine = 0 then Armor.newline else Armor.space] with
+          | mk ok2 w2 =>
+            cases ok2 with
+            | false => exact ⟨rfl, rfl, rfl, rfl⟩
+            | true => simp only; exact ih _
+    · rw [if_neg hgt]
+      exact ⟨rfl, rfl, rfl, rfl⟩
+
+theorem farm_encOk_init (par : Armor.Params) (hdr ftr : Bytes) (w : Wr) : (FArm.init par hdr ftr w).2.EncOk := by
+  unfold FArm.init
+  cases w.write (hdr ++ [Armor.period, Armor.space]) with
+  | mk ok w' => exact ⟨rfl, rfl⟩
+
+theorem farm_encOk_write (a : FArm) (b : Bytes) (h : a.EncOk) :
+    (a.enc.write b).2.1 = true ∧ (a.write b).2.EncOk := by
+  obtain ⟨e1, e2, e3⟩ := enc_write_sinkless a.enc b h.1 h.2
+  refine ⟨e1, ?_⟩
+  rw [farm_write_eq]
+  by_cases hf : a.failed = true
+  · simp only [hf, if_true]; exact h
+  · simp only [hf, e1, Bool.false_eq_true, if_false, if_true]
+    unfold farmAfter
+    have hfr := farm_spaceOut_frame ((a.feed (a.enc.write b).2.2).buf.length + 1) (a.feed (a.enc.write b).2.2)
+    cases hsp : FArm.spaceOut ((a.feed (a.enc.write b).2.2).buf.length + 1) (a.feed (a.enc.write b).2.2) with
+    | mk ok s2 =>
+      rw [hsp] at hfr
+      have hok : s2.EncOk := by unfold FArm.EncOk; rw [hfr.2.1]; exact ⟨e2, e3⟩
+      cases ok <;> exact hok
+
+theorem farm_encOk_close (a : FArm) (h : a.EncOk) : a.enc.close.1 = true ∧ a.close.2.EncOk := by
+  obtain ⟨e1, e2, e3⟩ := enc_close_sinkless a.enc h.1 h.2
+  refine ⟨e1, ?_⟩
+  rw [farm_close_eq]
+  by_cases hf : a.failed = true
+  · simp only [hf, if_true]; exact h
+  · simp only [hf, e1, Bool.false_eq_true, if_false, if_true]
+    unfold farmCloseAfter
+    have hfr := farm_spaceOut_frame ((a.feed a.enc.close.2).buf.length + 1) (a.feed a.enc.close.2)
+    cases hsp : FArm.spaceOut ((a.feed a.enc.close.2).buf.length + 1) (a.feed a.enc.close.2) with
+    | mk ok s2 =>
+      rw [hsp] at hfr
+      have hok : s2.EncOk := by unfold FArm.EncOk; rw [hfr.2.1]; exact ⟨e2, e3⟩
+      cases ok with
+      | false => exact hok
+      | true =>
+        simp only
+        cases hw1 : s2.w.write s2.buf with
+        | mk ok1 w1 =>
+          cases ok1 with
+          | false => exact hok
+          | true =>
+            simp only
+            generalize w1.write _ = r
+            exact hok
 
 section failed
 variable {ω : Type} (wr : ω → Bytes → Bool × ω)
